@@ -17,7 +17,7 @@ func init() {
 	sim.Register(&sim.Check{
 		ID: "C35", Title: "Generator ranking and per-round notarized blocks are consistent", World: "consensus",
 		Gen: genC35, Exec: execC35,
-		Quick:    sim.Budget{Runs: 1600, WallS: 25},
+		Quick:    sim.Budget{Runs: 1200, WallS: 25},
 		Thorough: sim.Budget{Runs: 400000, WallS: 600},
 		LevelText: "seeded search: 2-5 independent real chain.Chain/node.Pool/round.Round instances learn one seeded miner set over a simulated network " +
 			"(per-instance permutation, verbatim duplicates, queries racing with late deliveries) and compute ranks for seeded round seeds; " +
@@ -454,5 +454,6 @@ func execC35(env *sim.Env, p *sim.Plan) *sim.Result {
 			checkNB(in, i, fmt.Sprintf("upd blk=%d stored=%v", blk, stored))
 		}
 	}
+	miDumpTrace(tr)
 	return tr.Result(p.Seed)
 }
